@@ -1,6 +1,7 @@
 package authorize
 
 import (
+	"errors"
 	"net/url"
 	"slices"
 	"strings"
@@ -196,6 +197,14 @@ func validateInWithOutParams(
 	// Make sure all the outter parameters parameters are valid even if they are
 	// not used.
 	if err := validateParamsAsOptionals(ctx, outParams, c); err != nil {
+		// The outer parameters may lack the redirect URI (it can come from the
+		// pushed request or the request object), so the error is redirected
+		// with the merged parameters, which were validated above.
+		var redirectErr redirectionError
+		if errors.As(err, &redirectErr) {
+			redirectErr.AuthorizationParameters = mergedParams
+			return redirectErr
+		}
 		return err
 	}
 
